@@ -394,7 +394,7 @@ cli_arm!(c20_lean_usage_above_override, {
     w.test(U, 3, &["f"]); w.tests[0].before_defs = true;
     unused_lean(w)
 });
-/// @harness id=c20_lean_usage_below_override props=C20,C04 tier=quick unwind=17 mem=10 cap=1500
+/// @harness id=c20_lean_usage_below_override props=C20,C04 tier=thorough unwind=17 mem=10 cap=1500
 /// U: the override `def f(f)` and BELOW it a test(f); parent f in C0: the override's own parameter uses the parent, the
 /// test uses the override — both are used exactly once, none is unused (the override's parameter is met first).
 cli_arm!(c20_lean_usage_below_override, {
